@@ -1,7 +1,6 @@
 """C04 — owned async iterators are released when a tool finishes, fails or is closed."""
 import s1
 from framework import Issue
-from s1 import features, model_request, nontrivial, observe  # noqa: F401
 
 RULE = (
     "every tool and aggregation x parameter grid x item sequences up to length L x {exhaust, close after 1..len+1 items, "
@@ -17,7 +16,124 @@ ASSUMPTIONS = ["H-close: a user aclose() neither raises nor suspends",
                "parameter-validation errors (e.g. batched n<1) are not errors 'from a source, a callable or the consumer'"]
 
 
+# ---- handles that advertise closing what they own: chain, tee, groupby -------------------------------------------
+
+
+def _handle_cases(tier):
+    L = 3
+    for kind in s1.KINDS_ASYNC:
+        for ln in range(0, L + 1):
+            script = [["o", i, i // 2] for i in range(ln)]
+            for adv in range(0, ln + 2):
+                yield {"tool": "groupby", "family": "handle", "handle": "groupby", "advance": adv, "inner": adv % 2, "params": {},
+                       "srcs": [{"kind": kind, "script": script}], "fns": [], "cons": {"fin": "close"}}
+                yield {"tool": "chain", "family": "handle", "handle": "chain", "advance": adv, "params": {},
+                       "srcs": [{"kind": kind, "script": script}, {"kind": kind, "script": script[:1]}], "fns": [], "cons": {"fin": "close"}}
+            for n in (2, 3):
+                import itertools as _it
+                # every child advanced `a` items (0 = never started), then the children are closed in every order
+                for started in _it.product((0, 1, 2), repeat=n):
+                    for order in _it.permutations(range(n)):
+                        if tier == "quick" and n == 3 and order != tuple(range(n)) and order != tuple(reversed(range(n))):
+                            continue
+                        yield {"tool": "tee", "family": "handle", "handle": "tee", "n": n, "started": list(started), "order": list(order),
+                               "whole": False, "params": {}, "srcs": [{"kind": kind, "script": script}], "fns": [], "cons": {"fin": "close"}}
+                    yield {"tool": "tee", "family": "handle", "handle": "tee", "n": n, "started": list(started), "order": [], "whole": True,
+                           "params": {}, "srcs": [{"kind": kind, "script": script}], "fns": [], "cons": {"fin": "close"}}
+
+
+def _observe_handle(case):
+    from tools import mkscript
+    from world import asyncstdlib, drive, exc_name, make_source
+    log = []
+    S, states = [], []
+    for i, src in enumerate(case["srcs"]):
+        obj, st = make_source(src["kind"], mkscript(src["script"]), i, log)
+        S.append(obj)
+        states.append(st)
+    out = {"errors": [], "released_after": []}
+    h = case["handle"]
+    if h == "groupby":
+        gb = asyncstdlib.groupby(S[0], lambda it: it.key)
+        for k in range(case["advance"]):
+            res = drive(gb.__anext__())
+            if res.exc is None and case["inner"]:
+                drive(res.value[1].__anext__())
+        res = drive(gb.aclose())
+        out["errors"].append(exc_name(res.exc))
+    elif h == "chain":
+        ch = asyncstdlib.chain(*S)
+        for k in range(case["advance"]):
+            drive(ch.__anext__())
+        res = drive(ch.aclose())
+        out["errors"].append(exc_name(res.exc))
+    else:
+        t = asyncstdlib.tee(S[0], n=case["n"])
+        kids = list(t)
+        for i, a in enumerate(case["started"]):
+            for _ in range(a):
+                drive(kids[i].__anext__())
+        if case["whole"]:
+            res = drive(t.aclose())
+            out["errors"].append(exc_name(res.exc))
+        else:
+            for j, i in enumerate(case["order"]):
+                res = drive(kids[i].aclose())
+                out["errors"].append(exc_name(res.exc))
+                out["released_after"].append(states[0].released())
+    out["srcs"] = [st.summary() for st in states]
+    out["async"] = {"out": ["closed"], "vis": log, "srcs": out["srcs"]}
+    return out
+
+
+def observe(case):  # noqa: F811
+    if case.get("family") == "handle":
+        return _observe_handle(case)
+    return s1.observe(case)
+
+
+def model_request(case):  # noqa: F811
+    if case.get("family") == "handle":
+        return None
+    return s1.model_request(case)
+
+
+def features(case, obs):  # noqa: F811
+    if case.get("family") == "handle":
+        return ["handle=" + case["handle"], "kind=" + case["srcs"][0]["kind"]]
+    return s1.features(case, obs)
+
+
+def nontrivial(case, obs):  # noqa: F811
+    if case.get("family") == "handle":
+        return True
+    return s1.nontrivial(case, obs)
+
+
+def _judge_handle(case, obs):
+    issues = []
+    h = case["handle"]
+    errs = [e for e in obs["errors"] if e is not None]
+    if errs:
+        issues.append(Issue("oracle", {"errors": obs["errors"]}, "closing-%s-failed:%s" % (h, errs[0][1])))
+    leaked = [i for i, s in enumerate(obs["srcs"]) if s["released"] is False]
+    if leaked:
+        unstarted = h == "tee" and 0 in case["started"]
+        issues.append(Issue("oracle", {"leaked": leaked, "srcs": obs["srcs"], "case": {k: case.get(k) for k in ("advance", "started", "order", "whole")}},
+                            "handle-close-leaves-source-open:%s%s%s" % (h, ":child-never-started" if unstarted else "",
+                                                                         ":whole-handle" if case.get("whole") else "")))
+    if h == "tee" and not case["whole"] and obs["released_after"]:
+        early = [j for j, r in enumerate(obs["released_after"][:-1]) if r]
+        src_len = len(case["srcs"][0]["script"])
+        exhausted_by_children = any(a > src_len for a in case["started"])
+        if early and not exhausted_by_children and obs["srcs"][0]["ended"] == 0:
+            issues.append(Issue("oracle", {"released_after": obs["released_after"], "order": case["order"]},
+                                "tee-closed-source-before-last-child-done"))
+    return issues
+
+
 def cases(tier, rng):
+    yield from _handle_cases(tier)
     n = 0
     for case in s1.base_cases(tier, rng, s1.KINDS_ASYNC, s1.cons_cuts_and_throws, maxlen=3 if tier == "quick" else 4):
         if case["tool"] == "islice" and (case["params"].get("step", 1) == 3 or (case["params"].get("stop") or 0) > 3):
@@ -35,6 +151,8 @@ def _proj(vis, out):
 
 def judge(case, obs, model):
     issues = []
+    if case.get("family") == "handle":
+        return _judge_handle(case, obs)
     a = obs["async"]
     leaked = [i for i, s in enumerate(a["srcs"]) if s["released"] is False]
     if leaked and not a.get("at_construction"):
